@@ -296,6 +296,15 @@ def parse_mir_file(text):
             fns.setdefault(name, []).append(f)
             i = j + 1
             continue
+        if m and m.group(1) != 'fn' and ln.endswith(';') and ' = const ' in ln:
+            hdr = m.group(2)
+            k = _find_top_colon(hdr)
+            name = hdr[:k].strip()
+            f = MirFn(name, hdr, ln, 'const')
+            f.ret_type = hdr[k + 1:].split(' = const ')[0].strip()
+            f.blocks = {}
+            f._parsed = True
+            fns.setdefault(name, []).append(f)
         i += 1
     return fns
 
